@@ -95,8 +95,22 @@ def operator_grid():
 
 
 def generate(run, n):
-    pg = g.ProgGen(run.rng.fork("progs"))
+    pg = g.ProgGen(run.rng.fork("progs"), stdlib=0.05)
     progs = operator_grid() + [pg.program() for _ in range(n)]
+    # a stream dense in calls of NATIVE standard-library builtins (40 of them: folds, maps, filters, ranges,
+    # joins, slices, string and object helpers) with Jsonnet callbacks that close over the environment;
+    # Sem evaluates each call through its reference definition (vlib/stdref.py)
+    pgs = g.ProgGen(run.rng.fork("stdprogs"), stdlib=0.45)
+    want, tries = max(n // 4, 60), 0
+    while want > 0 and tries < 20 * n:
+        tries += 1
+        q = pgs.program()
+        if "std." in g.to_js(q):
+            progs.append(q)
+            want -= 1
+    for k, v in pgs.stats.items():
+        if k.startswith("std:"):
+            run.count("gen:" + k, v)
     rr = run.rng.fork("tla")
     ng = len(operator_grid())
     for i in range(ng, len(progs)):
@@ -293,7 +307,8 @@ def replay(run, data):
 RULE = ("type-directed random programs (locals incl. shadowing and mutual references, closures, functions "
         "with positional/named/default parameters, tailstrict, conditionals, all unary/binary operators, "
         "strings, arrays, comprehensions, index/slice, objects with self/super/$/+:/visibility/locals/asserts, "
-        "error/assert; ~4% erroring nodes, bombs in unneeded positions); each run in the base configuration and "
+        "error/assert; ~4% erroring nodes, bombs in unneeded positions) plus a stream dense in calls of 40 native "
+        "std builtins with Jsonnet callbacks, judged against their reference definitions run by Sem; each run in the base configuration and "
         "5 of the 20 (parser x call-style x embedding) configurations; distinct = distinct source text; "
         "non-trivial = at least 6 AST nodes")
 TRUSTED = ["Coq 8.16.1 kernel incl. vm_compute", "Sem (coq/theories/Sem) is my formalisation of the Jsonnet "
